@@ -105,6 +105,15 @@ Theorem release_safe : forall HK, hooks_ok HK = true ->
 Proof. exact release_either_order. Qed.
 Print Assumptions release_safe.
 
+(* the hypothesis [rc <= 1] of release_safe is the case in which a drop releases;
+   when somebody else (e.g. a stream created from a data reader) still holds the
+   object a drop only decrements its count *)
+Theorem drop_of_held_object_only_decrements : forall fuel h a,
+    shared_ok h a -> (1 < rc_of h a)%N ->
+    exists h', sqfs_drop DK (S fuel) h a = Ok h' /\ released h h' [] [a].
+Proof. exact (drop_held DK). Qed.
+Print Assumptions drop_of_held_object_only_decrements.
+
 (* after the first release the survivor is exactly what it was: well-formed,
    same abstraction, internal pointers alive *)
 Theorem survivor_intact : forall HK, hooks_ok HK = true ->
